@@ -1,8 +1,6 @@
 package main
 
 import (
-	"strconv"
-	"time"
 	"bufio"
 	"bytes"
 	"encoding/json"
@@ -12,6 +10,8 @@ import (
 	"os"
 	"os/exec"
 	"sort"
+	"strconv"
+	"time"
 )
 
 // Engine is one correspondence: a generator of inputs and a runner of the real code.
